@@ -1,4 +1,5 @@
 """C16 — treap heap order, canonical (Cartesian) shape, height (rlib/treap + rlib/rand)."""
+import collections
 import concurrent.futures
 import subprocess
 
@@ -43,34 +44,357 @@ THEOREMS = [
 ]
 RULE = ("the multi-treap histories of C03, including move = remove_at followed by insert_at of the returned item object, whose new node "
         "draws a new priority (two item kinds; priorities random / tiny range with ties / all equal / increasing / "
-        "decreasing / native draws of the process-wide generator; items that the caller modified before from_item / insert_at, so that they enter with a pending tag, and the real insert_at steered through every rank of the new node, ties included: c03.hybrid_tagged); observed = full final shape of every live treap through the "
+        "decreasing / the six boundary values 0, 1, 2^31-1, 2^31, 2^32-2, 2^32-1 / hybrid / native draws of the process-wide generator; items that the caller modified before from_item / insert_at, so that they enter with a pending tag, and the real insert_at steered through every rank of the new node, ties included: c03.hybrid_tagged; "
+        "C03's boundary families seen through the full shape: every assignment over {0, 2^32-2, 2^32-1}, empty operands next to boundary priorities, positions up to usize::MAX, "
+        "chains of depth 70-300 with increasing / decreasing / equal / native priorities); "
+        "NODES CREATED ON OTHER THREADS (ops Ft / It: from_item resp. insert_at run on a freshly spawned thread, the treap is moved there and back; T threads x m nodes, then merged; and a fifth of the "
+        "creations of a third of the random histories): the model predicts ONE stream for the whole process; "
+        "NODES CREATED THROUGH THE BUILDING BLOCKS (ops Fn / In: Box::new(TreapNode::new(item)) into the root field; TreapNode::split_at + TreapNode::new + TreapNode::merge x 2); "
+        "BURNT DRAWS (op Z:k = k times drop(TreapNode::new(item))): the stream is entered at offsets up to ~10^6, the phase of the real insert_at varies, and the first 32-bit collision of the "
+        "stream (draws 30918 and 80580, both 654029068) meets itself inside the real insert_at / merge in every arrangement; "
+        "FAMILY HISTORIES of 40-300 (quick) / up to 3000 (thorough) nodes with native priorities and of 64-200 nodes with increasing / decreasing / equal / tiny / boundary priorities: sorted appends, "
+        "front inserts, middle inserts, alternating ends, merge-building from one-node treaps, sorted-set building through split_by, scattered insert + remove_at, k treaps filled round robin and concatenated, "
+        "blocks started from Treap::default() / Treap::new(), split-and-swap rotations; split_by with NON-MONOTONE predicates (decided by model_check; the list specification is silent there); "
+        "observed = full final shape of every live treap through the "
         "public fields left/right/priority/item + final collect(); non-trivial = some final treap has >= 3 nodes and the history "
-        "contains a split or merge; implementation-level search (extra): sorted appends, front inserts, split-and-swap rotations, "
-        "append+remove up to 10^6 nodes with native priorities, heap order + subtree sizes + height <= 5*log2(n+1)+20 at every "
-        "power of two")
-TRUSTED = c03.TRUSTED
+        "contains a split or merge; "
+        "implementation-level search (extra), on the debug AND the release executor: families append, front, rotate (split-and-swap), appendremove, deque, middle, mergebuild, setbuild (ascending / scattered keys), "
+        "splitany (stateful non-monotone split_by), randremove, nodeapi (building blocks only), roundrobin k (strided subsequences of the stream in one treap), blocks (Treap::default / new), "
+        "threads T x m (sequential and concurrent; pieces moved to one thread and merged), doubling (t = merge(t, t.clone()), run only when Treap<Item>: Clone exists) up to 10^6 (1.1*10^6: past 2^20 draws) nodes with the "
+        "generator's own priorities: at every power of two the exact invariant of the code on every edge (<= left, < right: the shape is the Cartesian tree), subtree sizes, every node still has the priority it was "
+        "born with, height <= 3*floor(log2(n+1))+12 (failure probability < 3e-6 for independent uniform priorities, n <= 2^21; implies the bound 5*log2(n+1)+20 of c16_height_partial); the hash of ALL priorities drawn on the line "
+        "equals the hash of the modelled stream (bit for bit, up to 1.1*10^6 draws, both profiles; concurrent threads: as a multiset), and where the in-order sequence has a closed form the final height equals "
+        "the height of the Cartesian tree of the predicted priorities")
+TRUSTED = c03.TRUSTED + [
+    "executor harness/crates/c03/src/fam.rs (family search: its own heap / size / born-priority / height checks and hashes; reads the priority of a new node back through the public fields)",
+    "checks/c16.py (prediction of the draw index of every node creation of a line, burnt draws and creations on other threads included; hash and Cartesian-tree height of the predicted stream for the search)"]
 ASSUMPTIONS = c03.ASSUMPTIONS + [
     "the height bound is a statement about the randomness of the generator: proved only as finite computations for the named "
-    "families (c16_height_partial) and searched on the implementation up to 10^6 nodes"]
+    "families (c16_height_partial) and searched on the implementation up to 1.1*10^6 nodes in both build profiles",
+    "threads of one executor line are joined before the next creation on another thread, except in the concurrent thread family, where only the multiset of priorities is predicted",
+    "Treap::clone does not exist in the repository; the doubling family is compiled in through autoref specialisation and runs as soon as Treap<Item>: Clone holds"]
 
-harness_line = c03.harness_line
 shrink = c03.shrink
+
+# ----------------------------------------------------------------------------- the modelled stream (python side)
+_STREAM = []
+
+
+def stream(n):
+    """the first n draws of the process-wide generator after the reset at the start of a line (cached)"""
+    global _STREAM
+    if len(_STREAM) < n:
+        _STREAM = c03.lcg_prios(max(n, 2 * len(_STREAM), 4096))
+    return _STREAM
+
+
+# ----------------------------------------------------------------------------- extra ops of C16's histories
+# ["Z", k]            burn k draws (k times drop(TreapNode::new(item))): no counterpart in the Coq history, the creation
+#                     index of the later nodes moves on by k
+# c["via"] = {"<index of an F / I op>": "t" | "n"}    that creation runs on a freshly spawned thread (Ft / It) resp. through
+#                     the building blocks TreapNode::new + root field / TreapNode::{split_at, merge} (Fn / In); the Coq
+#                     history has the plain CFrom / CInsert
+
+def has_burn(c):
+    return any(op[0] == "Z" for op in c["ops"])
+
+
+def harness_line(c):
+    via = c.get("via") or {}
+    toks = ["h", str(c["kind"])]
+    for i, op in enumerate(c["ops"]):
+        if op[0] == "Z":
+            toks.append("Z:%d" % op[1])
+            continue
+        tok = c03.harness_line(dict(c, ops=[op])).split()[2]
+        v = via.get(str(i))
+        if v in ("t", "n") and op[0] in ("F", "I"):
+            tok = op[0] + v + tok[1:]
+        toks.append(tok)
+    return " ".join(toks)
+
+
+def case_prios(c):
+    """priority of every node creation that the Coq history sees, in order.  The j-th draw of a line (burnt draws
+    included) is stream[j]; a node whose priority is `n` (every node of a native case) keeps its draw."""
+    ps, L, j = [], [], 0
+    for op in c["ops"]:
+        if op[0] == "Z":
+            j += op[1]
+        elif op[0] == "F":
+            ps.append((j, op[2]))
+            j += 1
+        elif op[0] == "I" and op[1] < len(L):
+            ps.append((j, op[4]))
+            j += 1
+        elif op[0] == "V" and op[1] < len(L) and op[3] < len(L) and op[2] < len(L[op[1]]):
+            ps.append((j, op[5]))
+            j += 1
+        c03.py_step(L, op, c["kind"])
+    draws = stream(j)
+    nat_ = c.get("native")
+    return [draws[k] if (nat_ or p == "n") else p for k, p in ps]
+
+
+def coq_ops(c):
+    return "[%s]" % "; ".join(c03.coq_op(op) for op in c["ops"] if op[0] != "Z")
+
+
+def coq_native(c):
+    """Coq's native flag = "the priorities are a prefix of the modelled stream": not so when draws were burnt (then the
+    predicted draws are handed over as given priorities and the specification compares them one by one)"""
+    return bool(c.get("native")) and not has_burn(c)
+
+
+# ----------------------------------------------------------------------------- generators
+def with_via(rng, c, num=1, den=5):
+    """about num/den of the creations on another thread, as many through the building blocks"""
+    via = {}
+    for i, op in enumerate(c["ops"]):
+        if op[0] in ("F", "I"):
+            r = rng.below(den * 2)
+            if r < num:
+                via[str(i)] = "t"
+            elif r < 2 * num:
+                via[str(i)] = "n"
+    if via:
+        c["via"] = via
+    return c
+
+
+def with_burns(rng, c, big=False):
+    """burnt draws before about a quarter of the creations (mostly a few, sometimes thousands); `big`: the line starts
+    far inside the stream"""
+    ops = []
+    if big:
+        ops.append(["Z", rng.choice([255, 256, 257, 4095, 65536, 99991, (1 << 20) - 3, rng.below(1000000)])])
+    for op in c["ops"]:
+        if op[0] in ("F", "I", "V") and rng.chance(1, 4):
+            ops.append(["Z", rng.choice([1, 1, 2, 3, 7, 37, 255, 1000, 4099])])
+        ops.append(op)
+    c["ops"] = ops
+    c["mode"] = c.get("mode", "native") + "+burn"
+    return c
+
+
+def merge_all(ops, cnt):
+    """concatenate treaps 0..cnt-1 (in this order) into one: afterwards it is the only one"""
+    if cnt >= 2:
+        ops.append(["M", 0, 1])                      # [t2, .., t(cnt-1), t0+t1]
+        for left in range(cnt - 2, 0, -1):
+            ops.append(["M", left, 0])               # merged ++ next;   `left` = index of the merged one
+    return ops
+
+
+def thread_hist(T, m, kind, order, main_every=0):
+    """T threads create m nodes each (from_item + insert_at on a spawned thread, `order`: append / front), every
+    `main_every`-th creation stays on the line's own thread; the pieces are merged in thread order.  One stream."""
+    ops, via, cnt = [], {}, 0
+    for t in range(T):
+        for j in range(m):
+            v = 10 * t + j
+            if j == 0:
+                ops.append(["F", v, 0])
+            else:
+                ops.append(["I", t, j if order == "append" else 0, v, 0])
+            cnt += 1
+            if not (main_every and cnt % main_every == 0):
+                via[str(len(ops) - 1)] = "t"
+    merge_all(ops, T)
+    ops += [["S", 0], ["G", 0], ["C", 0]]
+    return {"kind": kind, "native": True, "mode": "threads", "ops": ops, "via": via}
+
+
+COLLISION = (30918, 80580)       # the first two draws of the stream with the same 32-bit value (654029068)
+
+
+def collision_cases():
+    """the two equal native priorities meet inside the real insert_at / merge, in both orders, next to other nodes"""
+    a, b = COLLISION
+    gap = b - a - 1
+    hists = [
+        [["Z", a], ["F", 1, 0], ["Z", gap], ["I", 0, 1, 2, 0]],
+        [["Z", a], ["F", 1, 0], ["Z", gap], ["I", 0, 0, 2, 0]],
+        [["Z", a], ["F", 1, 0], ["Z", gap], ["F", 2, 0], ["M", 0, 1]],
+        [["Z", a], ["F", 1, 0], ["Z", gap], ["F", 2, 0], ["M", 1, 0]],
+        [["Z", a - 2], ["F", 5, 0], ["I", 0, 1, 6, 0], ["I", 0, 1, 1, 0], ["Z", gap - 2], ["I", 0, 0, 7, 0], ["I", 0, 2, 8, 0],
+         ["I", 0, 2, 2, 0], ["I", 0, 1, 9, 0], ["A", 0, 3], ["M", 1, 0], ["R", 0, 0]],
+    ]
+    out = []
+    for k, h in enumerate(hists):
+        for kind in (0, 1):
+            c = {"kind": kind, "native": True, "mode": "collision", "ops": h + [["S", 0], ["G", 0], ["C", 0]]}
+            if k % 2 == 1:
+                c["via"] = {str(i): ("t" if kind == 0 else "n") for i, op in enumerate(h) if op[0] in ("F", "I") and i >= 3}
+            out.append(c)
+    return out
+
+
+FAMILIES = ["append", "front", "middle", "deque", "mergebuild", "mergefront", "setbuild", "setscatter", "randremove", "roundrobin",
+            "blocks", "rotate"]
+
+
+def fam_hist(fam, n, kind, mode, k=3):
+    """the families of the implementation-level search as correspondence cases (full shape against the model)"""
+    def pr(j):
+        return {"inc": 10 * (j + 1), "dec": 10000000 - 10 * j, "equal": 7, "tiny": (j * 7 + j // 3) % 3,
+                "edge": c03.EDGE_PRIOS[(j * 5 + j // 4) % 6]}.get(mode, 0)
+    ops, L = [], []
+
+    def emit(op):
+        ops.append(op)
+        c03.py_step(L, op, kind)
+
+    if fam in ("append", "front", "middle", "deque", "randremove", "rotate"):
+        emit(["N"])
+        for i in range(n):
+            s = len(L[0])
+            pos = {"append": s, "front": 0, "middle": s // 2, "deque": 0 if i % 2 == 0 else s}.get(fam, (i * 7919) % (s + 1))
+            emit(["I", 0, pos, i % 97, pr(i)])
+            if fam == "randremove" and i % 2 == 1:
+                emit(["R", 0, (i * 104729) % len(L[0])])
+            if fam == "rotate":
+                emit(["A", 0, (i * 104729 + 12345) % (i + 2)])
+                emit(["M", 1, 0])
+    elif fam in ("mergebuild", "mergefront"):
+        emit(["F", 0, pr(0)])
+        for i in range(1, n):
+            emit(["F", i % 97, pr(i)])
+            emit(["M", 1, 0] if (fam == "mergefront" and i % 2 == 1) else ["M", 0, 1])
+    elif fam in ("setbuild", "setscatter"):
+        emit(["N"])
+        for i in range(n):
+            v = i if fam == "setbuild" else (i * 7919) % 10007
+            emit(["B", 0, v])
+            emit(["F", v, pr(i)])
+            emit(["M", 0, 2])
+            emit(["M", 1, 0])
+    elif fam == "roundrobin":
+        for j in range(k):
+            emit(["D"] if j % 2 else ["N"])
+        for i in range(n):
+            j = i % k
+            emit(["I", j, 0 if j % 2 == 1 else len(L[j]), i % 97, pr(i)])
+        for op in merge_all([], k):
+            emit(op)
+    elif fam == "blocks":
+        emit(["N"])
+        for i in range(n):
+            if i % k == 0:
+                if i:
+                    emit(["M", 0, 1])
+                emit(["D"] if (i // k) % 2 == 0 else ["N"])
+            emit(["I", 1, 0, i % 97, pr(i)])
+        emit(["M", 0, 1])
+    else:
+        raise ValueError(fam)
+    assert len(L) == 1, (fam, len(L))
+    ops += [["S", 0], ["G", 0], ["f", 0], ["l", 0]]
+    return {"kind": kind, "native": mode == "native", "mode": "fam-%s-%s" % (fam, mode), "ops": ops}
+
+
+def splitby_any(rng, kind, n):
+    """split_by with arbitrary (non-monotone) thresholds on an unsorted sequence: the two parts are whatever the search path
+    says; heap order and the model's shape must hold (the list specification has no opinion).  No move afterwards (its
+    python-side bookkeeping needs the lengths)."""
+    mode = rng.choice(["random", "tiny", "native", "edge", "inc", "dec"])
+    ops, L, j = [], [], [0]
+
+    def pr():
+        j[0] += 1
+        return {"random": rng.below(1 << 32), "tiny": rng.below(3), "edge": rng.choice(c03.EDGE_PRIOS), "inc": 10 * j[0],
+                "dec": 1000000 - 10 * j[0]}.get(mode, 0)
+    ops.append(["F", rng.range(-20, 20), pr()])
+    for i in range(1, n):
+        ops.append(["I", 0, rng.below(i + 1), rng.range(-20, 20), pr()])
+    live = 1
+    for _ in range(rng.range(3, 8)):
+        r = rng.below(10)
+        i = rng.below(live)
+        if r < 5 and live < 6:
+            ops.append(["B", i, rng.range(-22, 22)])
+            live += 1
+        elif r < 8 and live >= 2:
+            jx = rng.below(live - 1)
+            ops.append(["M", i, jx + (1 if jx >= i else 0)])
+            live -= 1
+        elif r < 9:
+            ops.append(["U", i, "a", rng.range(-5, 5), kind])
+        else:
+            ops.append(["I", i, rng.below(n + 2), rng.range(-20, 20), pr()])
+    for i in range(live):
+        ops += [["G", i], ["C", i]]
+    return {"kind": kind, "native": mode == "native", "mode": "splitby-any", "ops": ops}
+
+
+def only_kinds(cases, kinds=(0, 1)):
+    return [c for c in cases if c["kind"] in kinds]
 
 
 def generate(rng, tier):
-    cases = c03.exhaustive_small(4 if tier == "quick" else 5)
+    quick = tier == "quick"
+    cases = c03.exhaustive_small(4 if quick else 5)
     # move = remove_at + insert_at of the returned item object: every priority assignment, every pair of positions
-    cases += c03.exhaustive_move(3, 3, kinds=(0, 1)) if tier == "quick" else c03.exhaustive_move(5, 3, kinds=(0, 1))
-    cases += c03.native_move(4 if tier == "quick" else 6, kinds=(0, 1))
+    cases += c03.exhaustive_move(3, 3, kinds=(0, 1)) if quick else c03.exhaustive_move(5, 3, kinds=(0, 1))
+    cases += c03.native_move(4 if quick else 6, kinds=(0, 1))
     # a tagged item enters through the REAL insert_at / from_item, the new node at every rank among the others (ties included)
-    cases += c03.hybrid_tagged(2, 2, kinds=(0, 1)) if tier == "quick" else c03.hybrid_tagged(4, 2, kinds=(0, 1))
-    n = 1100 if tier == "quick" else 25000
+    cases += c03.hybrid_tagged(2, 2, kinds=(0, 1)) if quick else c03.hybrid_tagged(4, 2, kinds=(0, 1))
+    n = 1100 if quick else 25000
     modes = ["random", "random", "tiny", "tiny", "equal", "inc", "dec", "native", "native", "native"]
     for t in range(n):
         kind = t % 2
         mode = modes[rng.below(len(modes))]
-        nops = rng.choice([4, 10, 20, 30, 45] if tier == "quick" else [4, 10, 20, 45, 80])
-        cases.append(c03.gen_history(rng, nops, kind, mode, 35 if tier == "quick" else 60))
+        nops = rng.choice([4, 10, 20, 30, 45] if quick else [4, 10, 20, 45, 80])
+        cases.append(c03.gen_history(rng, nops, kind, mode, 35 if quick else 60))
+
+    # ---- everything below draws from its own stream of choices (the cases above do not depend on it)
+    r2 = rng.fork("c16-ext")
+    # boundary priorities / empty operands / huge positions / long chains of C03, seen through the full shape
+    edge3 = [0, c03.U32MAX - 1, c03.U32MAX]
+    cases += only_kinds(c03.exhaustive_small(3 if quick else 4, alphabet=edge3, mode="edge-exhaustive"))
+    cases += only_kinds(c03.exhaustive_move(2, 2, kinds=(0, 1), alphabet=edge3, mode="edge-move") if quick
+                        else c03.exhaustive_move(3, 3, kinds=(0, 1), alphabet=edge3, mode="edge-move"))
+    cases += only_kinds(c03.edge_empty())
+    cases += only_kinds(c03.big_positions())
+    if quick:
+        cases += [c03.long_chain(70, 0, "inc"), c03.long_chain(130, 1, "dec"), c03.long_chain(70, 1, "equal"), c03.long_chain(300, 0, "native")]
+    else:
+        cases += [c03.long_chain(m, kind, mode) for m in (70, 130, 300) for kind in (0, 1) for mode in ("inc", "dec", "equal", "native")]
+        cases += [c03.long_chain(1000, 0, "native"), c03.long_chain(1000, 1, "native")]
+    # random histories: boundary / hybrid priorities; creations on other threads and through the building blocks; burnt draws
+    ext_modes = ["edge", "hybrid", "native", "native", "random", "tiny"]
+    for t in range(330 if quick else 9000):
+        kind = t % 2
+        mode = ext_modes[r2.below(len(ext_modes))]
+        nops = r2.choice([4, 10, 20, 30, 45] if quick else [4, 10, 20, 45, 80])
+        c = c03.gen_history(r2, nops, kind, mode, 35 if quick else 60)
+        if t % 3 == 0 and mode == "native":
+            c = with_burns(r2, c, big=(t % 2 == 0))
+        if t % 3 != 1:
+            c = with_via(r2, c)
+        cases.append(c)
+    # threads x nodes per thread, merged in thread order
+    shapes = [(2, 3), (3, 4), (8, 4), (5, 5), (16, 2), (12, 1)] if quick else \
+        [(2, 3), (3, 4), (8, 4), (5, 5), (16, 2), (12, 1), (2, 40), (20, 20), (64, 4), (40, 1), (7, 30)]
+    for k, (T, m) in enumerate(shapes):
+        for order in ("append", "front"):
+            cases.append(thread_hist(T, m, (k + (order == "front")) % 2, order, main_every=(0, 3, 2)[k % 3]))
+    cases += collision_cases()
+    # the families of the search as correspondence cases
+    for k, fam in enumerate(FAMILIES):
+        sizes = [40 + 17 * (k % 4), 300 if k % 3 == 0 else 150] if quick else [60, 300, 1000]
+        for m in sizes:
+            cases.append(fam_hist(fam, m, (k + m) % 2, "native", k=(3, 7, 16)[(k + m) % 3]))
+        if not quick and fam in ("append", "rotate", "setscatter", "roundrobin"):
+            cases.append(fam_hist(fam, 3000, k % 2, "native", k=89))
+        for mode in (("inc", "dec", "equal", "tiny", "edge") if not quick else (("inc", "dec", "equal", "tiny", "edge")[k % 5],)):
+            cases.append(fam_hist(fam, 64 if quick else 200, (k + len(mode)) % 2, mode, k=5))
+    for k in (0, 1, 2) if quick else range(12):
+        c = fam_hist(FAMILIES[(5 * k + 1) % len(FAMILIES)], 50 + 30 * (k % 5), k % 2, "native", k=4)
+        cases.append(with_via(r2, with_burns(r2, c, big=True), 1, 3))
+    # split_by with non-monotone predicates
+    for t in range(60 if quick else 1500):
+        cases.append(splitby_any(r2, t % 2, r2.choice([3, 6, 10, 16, 30])))
     return cases
 
 
@@ -109,8 +433,9 @@ def coq_term(c, obs, profile):
         shapes, _ = parse_shapes(so[1], c["kind"])
         colls = ["[%s]" % "; ".join(c03.z(int(v)) for v in t.partition(":")[2].split(",") if v != "") for t in so[2]]
         o = "(Some ([%s], [%s]))" % ("; ".join(shapes), "; ".join(colls))
-    return "(%s %s %s %s %s)" % ("CaseA" if c["kind"] == 0 else "CaseB", c03.coq_ops(c), c03.coq_prios(c),
-                                 "true" if c.get("native") else "false", o)
+    return "(%s %s %s %s %s)" % ("CaseA" if c["kind"] == 0 else "CaseB", coq_ops(c),
+                                 "[%s]" % "; ".join(c03.z(p) for p in case_prios(c)),
+                                 "true" if coq_native(c) else "false", o)
 
 
 def nontrivial(c, obs):
@@ -127,46 +452,289 @@ def classify(c, obs):
     if so is not None:
         _, sizes = parse_shapes(so[1], c["kind"])
         big = max(sizes + [0])
-    return "kind%d/%s/%s" % (c["kind"], c.get("mode", "?"), "n<3" if big < 3 else ("n<10" if big < 10 else "n>=10"))
+    tag = c.get("mode", "?") + ("+via" if c.get("via") else "")
+    return "kind%d/%s/%s" % (c["kind"], tag, "n<3" if big < 3 else ("n<10" if big < 10 else ("n<28" if big < 28 else "n>=28")))
 
 
 def known_finding(c, obs, profile):
     return None
 
 
+# ----------------------------------------------------------------------------- implementation-level search
+MAX_SEARCH_REPORTS = 6
+HK = 0x9E3779B97F4A7C15
+M64 = (1 << 64) - 1
+
+
+def stream_hashes(counts):
+    """{count: (chain hash, multiset hash)} of the first `count` draws, as harness/crates/c03/src/fam.rs computes them"""
+    want = set(counts)
+    out, c, m = {}, 0, 0
+    if 0 in want:
+        out[0] = (0, 0)
+    for i, p in enumerate(stream(max(want) if want else 0)):
+        c = (c * HK + p + 1) & M64
+        z = ((p + HK) * 0xBF58476D1CE4E5B9) & M64
+        m = (m + (z ^ (z >> 29))) & M64
+        if i + 1 in want:
+            out[i + 1] = (c, m)
+            if len(out) == len(want):
+                break
+    return out
+
+
+def tight_bound(n):
+    return 3 * ((n + 1).bit_length() - 1) + 12
+
+
+def cart_height(ps):
+    """height of the Cartesian tree of a priority sequence with the code's tie rule (on a tie the later one goes up)"""
+    n = len(ps)
+    if n == 0:
+        return 0
+    left, right, stack = [-1] * n, [-1] * n, []
+    for i, p in enumerate(ps):
+        last = -1
+        while stack and ps[stack[-1]] >= p:
+            last = stack.pop()
+        left[i] = last
+        if stack:
+            right[stack[-1]] = i
+        stack.append(i)
+    h, level = 0, [stack[0]]
+    while level:
+        h += 1
+        nxt = []
+        for v in level:
+            if left[v] >= 0:
+                nxt.append(left[v])
+            if right[v] >= 0:
+                nxt.append(right[v])
+        level = nxt
+    return h
+
+
+def inorder_ids(fam, args):
+    """in-order sequence of node ids (= creation indices, before the burn offset) of the final treap of a search job, where
+    a closed form / cheap simulation exists; None otherwise"""
+    n = args[0]
+    a = args[1] if len(args) > 1 else 0
+    if fam in ("append",) or (fam == "mergebuild" and a == 0) or (fam == "setbuild" and a == 0):
+        return list(range(n))
+    if fam == "front":
+        return list(range(n - 1, -1, -1))
+    if fam == "deque":
+        return list(range((n - 1) // 2 * 2, -1, -2)) + list(range(1, n, 2))
+    if fam == "mergebuild":
+        return list(range((n - 1) - (n % 2), 0, -2)) + list(range(0, n, 2))
+    if fam == "middle":
+        L, R = [], collections.deque()
+        for i in range(n):
+            if i % 2:
+                L.append(i)
+            else:
+                R.appendleft(i)
+        return L + list(R)
+    if fam == "setbuild":
+        return sorted(range(n), key=lambda i: (i * 1234577) % 2000003)
+    if fam == "appendremove":
+        d = collections.deque()
+        for i in range(n):
+            d.append(i)
+            if i % 3 == 2:
+                d.popleft()
+        return list(d)
+    if fam == "roundrobin":
+        k = max(a, 1)
+        out = []
+        for j in range(k):
+            ids = list(range(j, n, k))
+            out += ids[::-1] if j % 2 == 1 else ids
+        return out
+    if fam == "blocks":
+        b = max(a, 1)
+        out = []
+        for s in range(0, n, b):
+            out += list(range(min(s + b, n) - 1, s - 1, -1))
+        return out
+    if fam == "threads":
+        T, m, front, par = args[0], args[1], (args[2] if len(args) > 2 else 0), (args[3] if len(args) > 3 else 0)
+        if par:
+            return None
+        out = []
+        for t in range(T):
+            ids = list(range(t * m, (t + 1) * m))
+            out += ids[::-1] if front else ids
+        return out
+    if fam in ("rotate", "randremove") and n <= 40000:
+        xs = []
+        for i in range(n):
+            if fam == "rotate":
+                xs.insert((i * 7919) % (i + 1), i)
+                cut = (i * 104729 + 12345) % (i + 2)
+                xs = xs[cut:] + xs[:cut]
+            else:
+                xs.insert((i * 7919) % (len(xs) + 1), i)
+                if i % 2 == 1:
+                    xs.pop((i * 104729) % len(xs))
+        return xs
+    return None
+
+
+def job_nodes(fam, args):
+    """number of nodes a search job creates (burnt draws not counted)"""
+    return args[0] * args[1] if fam == "threads" else args[0]
+
+
+def search_jobs(tier):
+    """(profile, family, [args], burn, exact_height?)"""
+    jobs = []
+
+    def add(profile, fam, args, burn=0, exact=True):
+        jobs.append((profile, fam, list(args), burn, exact))
+
+    big = 1000000
+    thread_shapes = [(200, 5), (64, 16), (1000, 1), (16, 1000), (128, 128), (46, 1), (3, 7), (2, 5000)]
+    if tier == "quick":
+        # debug: the original four at full size, the new families smaller; release: everything at 10^6 and past 2^20 draws
+        for fam in ("append", "front", "appendremove"):
+            add("debug", fam, [big], exact=False)
+        add("debug", "rotate", [300000], exact=False)
+        for fam, args in (("deque", [60000]), ("middle", [60000]), ("mergebuild", [60000, 1]), ("setbuild", [60000, 1]),
+                          ("splitany", [60000]), ("randremove", [40000]), ("nodeapi", [60000]), ("roundrobin", [60000, 89]),
+                          ("roundrobin", [100000, 4096]), ("blocks", [60000, 7, 0]), ("blocks", [60000, 1000, 1]),
+                          ("rotate", [20000])):
+            add("debug", fam, args)
+        for fam, args in (("append", [1100000]), ("front", [big]), ("rotate", [big]), ("appendremove", [big]), ("deque", [big]),
+                          ("middle", [big]), ("mergebuild", [big, 0]), ("mergebuild", [big, 1]), ("setbuild", [big, 0]),
+                          ("setbuild", [big, 1]), ("splitany", [big]), ("randremove", [big]), ("nodeapi", [big]),
+                          ("roundrobin", [big, 3]), ("roundrobin", [big, 144]), ("roundrobin", [big, 65536]),
+                          ("blocks", [big, 7, 0]), ("blocks", [big, 1000, 1]), ("threads", [100, 10000, 0, 1])):
+            add("release", fam, args, exact=False)
+        for fam, args in (("append", [200000]), ("deque", [100000]), ("setbuild", [100000, 1]), ("roundrobin", [100000, 233]),
+                          ("randremove", [40000]), ("rotate", [30000])):
+            add("release", fam, args)
+        for profile in ("debug", "release"):
+            for (T, m) in thread_shapes:
+                for par in (0, 1):
+                    add(profile, "threads", [T, m, (T + par) % 2, par])
+            add(profile, "doubling", [16, 10])
+            add(profile, "doubling", [1, 12])
+            for k, (fam, args) in enumerate((("append", [3000]), ("front", [3000]), ("middle", [500]), ("roundrobin", [5000, 7]),
+                                             ("threads", [32, 32, 0, 0]), ("threads", [32, 32, 1, 1]))):
+                add(profile, fam, args, burn=(30918, 1 << 16, 262143, 999983, 80580, 4097)[k])
+    else:
+        for profile in ("debug", "release"):
+            for fam, tail in (("append", []), ("front", []), ("rotate", []), ("appendremove", []), ("deque", []), ("middle", []),
+                              ("mergebuild", [0]), ("mergebuild", [1]), ("setbuild", [0]), ("setbuild", [1]), ("splitany", []),
+                              ("randremove", []), ("nodeapi", []), ("blocks", [7, 0]), ("blocks", [1000, 1]), ("blocks", [1, 0]),
+                              ("blocks", [65536, 1])):
+                for n in (1000, 65536, 250000, big):
+                    if profile == "debug" and n == big and fam in ("rotate", "splitany", "randremove", "setbuild", "nodeapi") and tail != [0]:
+                        n = 400000
+                    add(profile, fam, [n] + tail, exact=(profile == "release" or n <= 65536))
+            add(profile, "append", [1100000], exact=False)
+            add(profile, "front", [1100000], exact=False)
+            for k in (2, 3, 7, 64, 89, 144, 233, 256, 377, 610, 1024, 4096, 65536):
+                add(profile, "roundrobin", [big if profile == "release" else 250000, k], exact=(profile == "release"))
+                add(profile, "roundrobin", [20000, k])
+            for (T, m) in thread_shapes + [(100, 10000), (1000, 100), (256, 256), (512, 8), (8, 512), (89, 89), (4000, 1)]:
+                for par in (0, 1):
+                    for front in (0, 1):
+                        add(profile, "threads", [T, m, front, par])
+            for b, r in ((16, 10), (1, 12), (5, 8), (1000, 6)):
+                add(profile, "doubling", [b, r])
+            # the stream entered at many offsets (short and medium runs), both profiles
+            for k in range(40):
+                off = (k * 27449 + 255) % 1000000
+                add(profile, ("append", "front", "middle", "deque")[k % 4], [(300, 5000, 40, 20000)[k % 4]], burn=off)
+                add(profile, "threads", [16 + k, 16 + (k * 7) % 50, k % 2, k % 2], burn=off)
+            add(profile, "roundrobin", [5000, 7], burn=COLLISION[0])
+    return jobs
+
+
 def extra(ctx, known):
     """implementation-level search with the generator's own priorities (never counted as proof)"""
-    binp = ctx.bins["debug"]
-    big = 1000000
-    jobs = [("append", big), ("front", big), ("appendremove", big),
-            ("rotate", 300000 if ctx.tier == "quick" else big)]
-    if ctx.tier != "quick":
-        jobs += [(f, n) for f in ("append", "front", "rotate") for n in (1000, 65536, 250000)]
+    jobs = search_jobs(ctx.tier)
+
+    def line_of(job):
+        _, fam, args, burn, _ = job
+        return "x %s %s%s" % (fam, " ".join(str(a) for a in args), " +%d" % burn if burn else "")
 
     def one(job):
-        fam, n = job
         try:
-            p = subprocess.run([binp], input="x %s %d\n" % (fam, n), stdout=subprocess.PIPE, stderr=subprocess.PIPE,
+            p = subprocess.run([ctx.bins[job[0]]], input=line_of(job) + "\n", stdout=subprocess.PIPE, stderr=subprocess.PIPE,
                                text=True, timeout=1800)
             return job, p.returncode, p.stdout.strip(), p.stderr[-500:]
         except subprocess.TimeoutExpired:
             return job, -1, "timeout", ""
 
-    cov, viol = {}, []
     with concurrent.futures.ThreadPoolExecutor(4) as ex:
-        for (fam, n), rc, out, err in ex.map(one, jobs):
-            toks = out.split()
-            if rc == 0 and toks[:1] == ["ok"]:
-                cov["search_%s_%d" % (fam, n)] = {"final_height": int(toks[3]), "bound": 5 * ((n + 1).bit_length() - 1) + 20,
-                                                  "worst_height_over_bound_permille": int(toks[4]), "checkpoints": int(toks[5])}
-            else:
-                viol.append({"name": "search-%s-%d" % (fam, n),
-                             "payload": {"what": "implementation-level search: family '%s' with %d insertions and the treap's own "
-                                                 "priorities violates heap order or height <= 5*log2(n+1)+20 (or crashed: a "
-                                                 "degenerate tree exhausts the stack)" % (fam, n),
-                                         "executor_line": "x %s %d" % (fam, n), "executor_output": out, "returncode": rc,
-                                         "stderr": err}})
-    ctx.say("[C16] search: %d families/sizes, %d violation(s)" % (len(jobs), len(viol)))
+        fut = ex.map(one, jobs)
+        # meanwhile: the modelled stream, its hashes at every count a job needs, and the predicted final heights
+        counts = {job_nodes(f, a) + b for (_, f, a, b, _) in jobs if f != "doubling"}
+        hashes = stream_hashes(counts)
+        draws = stream(max(counts))
+        want_h = {}
+        for (_, fam, args, burn, exact) in jobs:
+            key = (fam, tuple(args), burn)
+            if exact and fam != "doubling" and key not in want_h:
+                ids = inorder_ids(fam, args)
+                want_h[key] = None if ids is None else (cart_height([draws[burn + i] for i in ids]), len(ids))
+        results = list(fut)
+
+    cov, viol, n_exact, skipped = {}, [], 0, 0
+    for job, rc, out, err in results:
+        profile, fam, args, burn, exact = job
+        name = "%s_%s%s_%s" % (fam, "_".join(str(a) for a in args), "_burn%d" % burn if burn else "", profile)
+        toks = out.split()
+        payload = {"executor_line": line_of(job), "profile": profile, "executor_output": out, "returncode": rc, "stderr": err}
+        if rc == 0 and toks[:3] == ["skip", "doubling", "noclone"]:
+            skipped += 1
+            cov["search_" + name] = {"skipped": "Treap<Item>: Clone does not exist"}
+            continue
+        if not (rc == 0 and toks[:1] == ["ok"] and len(toks) == 10):
+            viol.append({"name": "search-" + name,
+                         "payload": dict(payload, what="implementation-level search: family '%s' (args %s, %d burnt draws, %s build) with the treap's own "
+                                                       "priorities violates the exact heap invariant, the subtree sizes, 'a node keeps the priority it was born "
+                                                       "with' or height <= 3*floor(log2(n+1))+12 (or crashed: a degenerate tree exhausts the stack)"
+                                                       % (fam, args, burn, profile))})
+            continue
+        height, worst, checks, size, created, chain, multi = [int(t) for t in toks[3:10]]
+        nodes = job_nodes(fam, args)
+        entry = {"final_height": height, "final_size": size, "bound": tight_bound(size), "older_bound": 5 * ((size + 1).bit_length() - 1) + 20,
+                 "worst_height_over_bound_permille": worst, "checkpoints": checks, "draws": created}
+        cov["search_" + name] = entry
+        if fam == "doubling":
+            continue
+        par = fam == "threads" and len(args) > 3 and args[3] == 1
+        hc, hm = hashes[nodes + burn]
+        if created != nodes + burn or multi != hm or (not par and chain != hc):
+            viol.append({"name": "search-stream-" + name, "kind": "broken-correspondence", "nofail": True,
+                         "payload": dict(payload, obligation="the priorities drawn on one executor line are the first draws of the modelled generator (C16/Model.v lcg_prios)",
+                                         what="implementation-level search: the %d priorities drawn by family '%s' (args %s, %d burnt draws, %s build) are not the first %d draws of the "
+                                              "modelled process-wide generator (%s); heap order and the height bound held on this line"
+                                              % (created, fam, args, burn, profile, nodes + burn, "as a multiset" if par else "in creation order"),
+                                         expected={"draws": nodes + burn, "chain_hash": hc, "multiset_hash": hm})})
+            continue
+        entry["stream"] = "multiset of the first %d draws" % created if par else "first %d draws, in order" % created
+        wh = want_h.get((fam, tuple(args), burn))
+        if exact and wh is not None:
+            n_exact += 1
+            entry["predicted_height"] = wh[0]
+            if (height, size) != wh:
+                viol.append({"name": "search-shape-" + name, "kind": "broken-correspondence", "nofail": True,
+                             "payload": dict(payload, obligation="final shape = Cartesian tree of the predicted in-order priorities (c16_cartesian)",
+                                             what="implementation-level search: family '%s' (args %s, %d burnt draws, %s build) ends with %d nodes at height %d; the Cartesian tree of the "
+                                                  "predicted in-order priority sequence has %d nodes and height %d" % (fam, args, burn, profile, size, height, wh[1], wh[0]))})
+    ctx.say("[C16] search: %d families/sizes/profiles (%d with the exact height predicted, %d skipped: no Clone), %d violation(s)"
+            % (len(jobs), n_exact, skipped, len(viol)))
+    if len(viol) > MAX_SEARCH_REPORTS:
+        # one breaking change usually fails many jobs: report the concrete ones first, name the others in the last report
+        viol.sort(key=lambda v: bool(v.get("nofail")))
+        rest = [v["name"] for v in viol[MAX_SEARCH_REPORTS:]]
+        viol = viol[:MAX_SEARCH_REPORTS]
+        viol[-1]["payload"]["other_failing_search_jobs"] = rest
     return {"coverage": {"implementation_search": cov}, "violations": viol}
 
 
